@@ -180,30 +180,21 @@ enclosing `result_buffer_` directory in its `finally`) -/
 theorem typeAssignment_restores_on_return :
     restoresOn [.norm, .ret] CTM.Generated.typeAssignment = true := by decide
 
-/-- `run_mapping`: scratch restored once it has returned -/
-theorem runMapping_restores_on_return :
-    restoresOn [.norm, .ret] CTM.Generated.runMapping = true := by decide
+/-- `run_mapping`: "a mapping run also leaves nothing behind when it ends with an error" --
+nothing is live at any exit, raising or not: both the `cell_type_mapper_<timestamp>_`
+directory (slot 2) and the `result_buffer_` directory (slot 3) are created inside or
+immediately before the `try` whose `finally` cleans them up.  (On the tree before the
+`fix:` commits 637c104 and 46a73cc this obligation failed: slot 3 was cleaned inside the
+`try` (D2), slot 2 was created before the output-path validity loop, which can raise --
+finding `C19/scratch/cell_type_mapper-left-after-error-early`.) -/
+theorem runMapping_restores_always :
+    restoresOn [.norm, .ret, .exc] CTM.Generated.runMapping = true := by decide
 
-/-- `run_mapping`, error exits: the `result_buffer_` directory (slot 3) is never left
-behind (the repaired defect D2); the only temporary that may survive an error is slot 2,
-the `cell_type_mapper_<timestamp>_` directory.
-
-FULL STRENGTH (what the property asks): `restoresOn [.norm, .ret, .exc]
-CTM.Generated.runMapping = true`.  On the pinned source this is FALSE -- slot 2 is created
-before the `try` and the output-path validity loop between the two can raise (finding
-`C19/scratch/cell_type_mapper-left-after-error-early`, reproduced on the real code by the
-suite).  The check evaluates the full obligation on the regenerated skeleton at run time
-(`scratch.skeleton`) and reports it; this theorem is the part that holds. -/
-theorem runMapping_error_exit_partial :
-    ((postL CTM.Generated.runMapping []).exc).all (fun v => v == 2) = true := by decide
-
-/-- with `scratch_restored` / `may_leak_sound`: every execution of the `run_mapping`
-skeleton that ends in an error leaves at most slot 2 -/
-theorem runMapping_error_leaves_at_most_tmp_dir {σ' : Live}
-    (hx : ExecL CTM.Generated.runMapping [] .exc σ') : ∀ x ∈ σ', x = 2 := by
-  intro x hxm
-  have h1 := may_leak_sound _ hx x hxm
-  have h2 := List.all_eq_true.mp runMapping_error_exit_partial x h1
-  simpa using h2
+/-- with `scratch_restored`: every execution of the `run_mapping` skeleton, however it ends,
+ends with nothing live -/
+theorem runMapping_every_path_clean {e : Exit} {σ' : Live}
+    (hx : ExecL CTM.Generated.runMapping [] e σ') : σ' = [] := by
+  apply scratch_restored [.norm, .ret, .exc] _ runMapping_restores_always _ hx
+  cases e <;> simp
 
 end CTM.C19
